@@ -60,6 +60,14 @@ class DuckReservoir:
         self.pseudopressure = SymArray([SymArray([fresh(f"m{i}_{j}") for j in range(nx)], "f8") for i in range(nt)], "f8", (nt, nx))
         self._rf = SymArray([fresh(f"rf{k}") for k in range(nt)], "f8")
         self._rfd = SymArray([fresh(f"rfd{k}") for k in range(nt)], "f8")      # in-place (density) recovery: a different curve
+        # the other fields a reservoir object carries; none of them is what a figure shows (an IdealReservoir may be given a
+        # fluid, whose scaled initial pseudopressure has nothing to do with the ideal field's 1)
+        self.pressure_fracface, self.pressure_initial = fresh("pf_field", pos=True), fresh("pi_field", pos=True)
+
+        class _Fluid:
+            m_i = fresh("fluid_m_i", pos=True)
+            pvt_props = {}
+        self.fluid = _Fluid()
 
     def recovery_factor(self, time=None, density=False):
         # as the real classes do: the last result is kept in `recovery`
@@ -94,6 +102,14 @@ def _real_res(nx, nt):
     r.pseudopressure = np.sort(rs.uniform(0.1, 1, (nt, nx)), axis=1)
     rf = np.cumsum(rs.uniform(0, 0.1, nt))
     r.recovery_factor = lambda: rf
+    # the remaining fields of a reservoir object (an IdealReservoir built with a fluid: its field starts at 1 whatever the
+    # fluid's scaled initial pseudopressure is)
+    r.pressure_fracface, r.pressure_initial = 1000.0, 8000.0
+
+    class F:
+        m_i = 0.40731
+        pvt_props = {}
+    r.fluid = F()
     return r, rf
 
 
